@@ -11,6 +11,11 @@ package c03
 //	       parked at the yield point of OutPort.Open, the backward listener before its own Open),
 //	pos 2  after the first send has reached the sink, the backward listener still parked before
 //	       its own Open,
+//	pos 3  inside the process's first Open of the SOURCE out-port: it has taken the snapshot of its
+//	       linked in-ports and is parked before it opens them; the node's in-port (or the node) is
+//	       closed; the Open goes on and opens the closed in-port – InPort has no readers and no
+//	       listeners any more, so a fresh reader is created that nobody listens on; then the first
+//	       send: the closed port must answer it with the dropped error,
 //
 // on a chain  source out-port → node (one-to-one, one-to-many or many-to-one) → sink in-port  of one
 // process, with the actions out-port close, node close and (pos 1, 2) writer close.  Then the
@@ -39,16 +44,20 @@ import (
 type winPlan struct {
 	nodeKind int    // 0 one-to-one, 1 one-to-many, 2 many-to-one
 	pos      int    // 0, 1, 2 (see above)
-	act      string // outport | node | writer
+	act      string // outport | node | writer | inport
 	kind     string // raw | send
 	post     bool   // one more request afterwards
 }
 
 func (p winPlan) String() string {
 	kinds := []string{"OneToOneNode", "OneToManyNode", "ManyToOneNode"}
-	poss := []string{"before the first send", "between the forward loop's Open and its Write", "after the first send, before the backward listener's own Open"}
+	poss := []string{"before the first send", "between the forward loop's Open and its Write", "after the first send, before the backward listener's own Open",
+		"inside the source out-port's Open, after its snapshot of the linked in-ports and before it opens them"}
 	return fmt.Sprintf("window: source → %s → sink; requester %s; %s close %s; post=%v", kinds[p.nodeKind], p.kind, p.act, poss[p.pos], p.post)
 }
+
+// winOpener is the frame by which the yield hook recognises the harness's own parked Open.
+func winOpener(src *port.OutPort, proc *process.Process) *packet.Writer { return src.Open(proc) }
 
 func onStack(sub string) bool {
 	buf := make([]byte, 8192)
@@ -70,7 +79,9 @@ func runWindow(p winPlan) (res winResult) {
 		"outport 0", "outport 1", "node 0 1", "proc W 0 R 0 0 W 1 R 1 0"} {
 		emit(l, "ok")
 	}
-	emit("link 0 0", "t")
+	if p.pos != 3 { // pos 3: the source writer is never linked to the node's (closed) reader of the process
+		emit("link 0 0", "t")
+	}
 	emit("link 1 0", "t")
 
 	// the workflow
@@ -107,10 +118,10 @@ func runWindow(p winPlan) (res winResult) {
 	proc := process.New()
 
 	// parking
-	var parkFwd, parkBwd atomic.Bool
-	var fwdOnce sync.Once
-	fwdGate, bwdGate := make(chan struct{}), make(chan struct{})
-	fwdParked, bwdParked := make(chan struct{}, 1), make(chan struct{}, 4)
+	var parkFwd, parkBwd, parkOpen atomic.Bool
+	var fwdOnce, openOnce sync.Once
+	fwdGate, bwdGate, openGate := make(chan struct{}), make(chan struct{}), make(chan struct{})
+	fwdParked, bwdParked, openParked := make(chan struct{}, 1), make(chan struct{}, 4), make(chan struct{}, 1)
 	port.VerifSetYield(func(site int) {
 		switch {
 		case site == port.VerifSiteOpenAfterStatus && parkBwd.Load() && onStack(").backward"):
@@ -121,6 +132,11 @@ func runWindow(p winPlan) (res winResult) {
 				fwdParked <- struct{}{}
 				<-fwdGate
 			})
+		case site == port.VerifSiteOpenBeforeAddExitHook && parkOpen.Load() && onStack("winOpener"):
+			openOnce.Do(func() {
+				openParked <- struct{}{}
+				<-openGate
+			})
 		}
 	})
 	released := false
@@ -129,8 +145,10 @@ func runWindow(p winPlan) (res winResult) {
 			released = true
 			parkFwd.Store(false)
 			parkBwd.Store(false)
+			parkOpen.Store(false)
 			close(fwdGate)
 			close(bwdGate)
+			close(openGate)
 		}
 	}
 	defer func() {
@@ -144,7 +162,42 @@ func runWindow(p winPlan) (res winResult) {
 		})
 	}()
 
-	w := src.Open(proc)
+	actLine := map[string]string{"outport": "down outport 1", "node": "down node 0", "writer": "down writer 1", "inport": "down inport 0"}
+	var w *packet.Writer
+	if p.pos == 3 {
+		parkOpen.Store(true)
+		wch := make(chan *packet.Writer, 1)
+		go func() { wch <- winOpener(src, proc) }()
+		select {
+		case <-openParked:
+		case <-time.After(watchdog):
+			fail("setup", "the source out-port's Open did not reach its yield point")
+			return
+		}
+		if pmsg := lib.Safe(func() {
+			if p.act == "inport" {
+				aIn.Close()
+			} else {
+				_ = nd.Close()
+			}
+		}); pmsg != "" {
+			fail("panic", "%s close panicked: %s", p.act, pmsg)
+		}
+		emit(actLine[p.act], "u")
+		release()
+		select {
+		case w = <-wch:
+		case <-time.After(watchdog):
+			fail("blocked", "the source out-port's Open did not return after the in-port was closed")
+			return
+		}
+		// the closed in-port has handed out a fresh reader: reader 1 of the source writer, listened to
+		// by the port's own drop loop (sink 9)
+		emit("lis 0 1 sink 9", "ok")
+		emit("link 0 1", "t")
+	} else {
+		w = src.Open(proc)
+	}
 	r := &requester{q: qid{0, 0}, wid: 0, w: w, kind: p.kind, cmd: make(chan reqCmd, 8), res: make(chan reqRes, 8)}
 	go r.loop()
 	defer close(r.cmd)
@@ -191,14 +244,7 @@ func runWindow(p winPlan) (res winResult) {
 		if pmsg != "" {
 			fail("panic", "%s close panicked: %s", p.act, pmsg)
 		}
-		switch p.act {
-		case "outport":
-			emit("down outport 1", "u")
-		case "node":
-			emit("down node 0", "u")
-		case "writer":
-			emit("down writer 1", "u")
-		}
+		emit(actLine[p.act], "u")
 	}
 	var written []int // payloads of the requests written, in order
 	held := 0         // requests the sink holds
@@ -264,6 +310,20 @@ func runWindow(p winPlan) (res winResult) {
 		held--
 		emit(fmt.Sprintf("pans 0 v %d", v+answerBase), tf(ret))
 	}
+	if p.pos == 3 {
+		v, cnt, ok := write()
+		if !ok {
+			return
+		}
+		written = append(written, v)
+		if cnt < 0 {
+			cnt = 1
+		}
+		emit(fmt.Sprintf("wwrite 0 %d", v), fmt.Sprintf("n%d", cnt))
+		if cnt > 0 {
+			emit("pans 9 e 0", "t") // the closed port answers what is written to it with the dropped error
+		}
+	}
 	// collect what is owed so far, then one more request
 	lastFallback := false
 	collect := func(what string) bool {
@@ -322,6 +382,9 @@ func runWindow(p winPlan) (res winResult) {
 			written = append(written, v)
 			idx := len(res.lines)
 			emit(fmt.Sprintf("pwrite 0 %d", v), fmt.Sprintf("n%d", cnt))
+			if p.pos == 3 && cnt != 0 {
+				emit("pans 9 e 0", "t")
+			}
 			ok = collect("request written after the teardown")
 			if cnt < 0 { // Send hides the count: accepted unless the fallback came back
 				if lastFallback {
@@ -364,7 +427,7 @@ func runWindow(p winPlan) (res winResult) {
 
 // isWinCorpus tells whether a corpus file belongs to this family:
 //
-//	window <node kind 0|1|2> <pos 0|1|2> <outport|node|writer> <raw|send> [post]
+//	window <node kind 0|1|2> <pos 0|1|2|3> <outport|node|writer|inport> <raw|send> [post]
 func isWinCorpus(path string) bool {
 	ls := lib.ReadLines(path)
 	return len(ls) > 0 && strings.HasPrefix(ls[0], "window ")
@@ -375,11 +438,12 @@ func parseWinCorpus(path string) (p winPlan, err string) {
 	if len(f) < 5 || len(f) > 6 {
 		return p, "window needs: node kind, position, action, requester kind [post]"
 	}
-	if n, e := fmt.Sscanf(f[1]+" "+f[2], "%d %d", &p.nodeKind, &p.pos); n != 2 || e != nil || p.nodeKind < 0 || p.nodeKind > 2 || p.pos < 0 || p.pos > 2 {
+	if n, e := fmt.Sscanf(f[1]+" "+f[2], "%d %d", &p.nodeKind, &p.pos); n != 2 || e != nil || p.nodeKind < 0 || p.nodeKind > 2 || p.pos < 0 || p.pos > 3 {
 		return p, "bad node kind / position"
 	}
 	p.act, p.kind = f[3], f[4]
-	if (p.act != "outport" && p.act != "node" && p.act != "writer") || (p.kind != "raw" && p.kind != "send") || (p.act == "writer" && p.pos == 0) {
+	if (p.act != "outport" && p.act != "node" && p.act != "writer" && p.act != "inport") || (p.kind != "raw" && p.kind != "send") || (p.act == "writer" && p.pos == 0) ||
+		((p.pos == 3) != (p.act == "inport" || (p.pos == 3 && p.act == "node"))) {
 		return p, "bad action / requester kind"
 	}
 	if len(f) == 6 {
@@ -427,10 +491,13 @@ func runWindows(c *lib.Ctx, model *lib.Script, add func(class, what, replay stri
 		one(p)
 	}
 	for nodeKind := 0; nodeKind < 3; nodeKind++ {
-		for pos := 0; pos < 3; pos++ {
-			for _, actn := range []string{"outport", "node", "writer"} {
+		for pos := 0; pos < 4; pos++ {
+			for _, actn := range []string{"outport", "node", "writer", "inport"} {
 				if actn == "writer" && pos == 0 {
 					continue // the writer does not exist yet
+				}
+				if (pos == 3) != (actn == "inport" || (pos == 3 && actn == "node")) {
+					continue // pos 3 closes the node's in side (in-port or node); the other positions its out side
 				}
 				for _, kind := range []string{"raw", "send"} {
 					for _, post := range []bool{false, true} {
